@@ -50,6 +50,9 @@ def _cases(draw):
                 break
     if g.p("_", 0.6):
         form["survey_col_order"] = [g.integer(0, 999) for _ in range(15)]
+    if g.p("_", 0.2):
+        # the workbook as a spreadsheet or CSV file the way people keep them: header-less spacer columns, runs of blank rows, typed numbers
+        form["carrier"] = {"fmt": g.pick(["xlsx", "xls", "csv", "csv"]), "seed": g.integer(0, 9999)}
     return {"form": form}
 
 
